@@ -48,6 +48,28 @@ def seed_table():
                           check=True).stdout.rstrip()
 
 
+def refac_table():
+    import glob
+    rows = ["| refactoring | file(s) | suite green | verdict per check (ok = exit 0; tie = exit 1, no-failing-input-found) |",
+            "|---|---|---|---|"]
+    nfalse = ncrash = 0
+    for f in sorted(glob.glob(os.path.join(V, "seeded", "refactorings", "*", "meta.json"))):
+        m = json.load(open(f))
+        patch = open(os.path.join(os.path.dirname(f), "patch.diff")).read()
+        files = sorted(set(re.findall(r"^\+\+\+ b/(\S+)", patch, re.M)))
+        vs = []
+        for k, v in sorted(m["checks"].items()):
+            w = v["verdict"]
+            nfalse += w == "FAILING-INPUT"
+            ncrash += w.startswith("CRASH")
+            vs.append("%s %s" % (k, "ok" if w == "ok" else "tie" if w == "tie-broken" else w))
+        rows.append("| %s | %s | %s | %s |" % (m["id"], ", ".join(x.replace("loguru/", "") for x in files),
+                                                "yes" if m.get("test_suite_ok") else "NO", "; ".join(vs)))
+    rows.append("")
+    rows.append("Concrete failing inputs reported on a refactoring (false alarms): **%d**; crashes of a check: **%d**." % (nfalse, ncrash))
+    return "\n".join(rows)
+
+
 def splice(text, tag, body):
     a, b = "<!-- %s -->" % tag, "<!-- /%s -->" % tag
     i, j = text.index(a), text.index(b)
@@ -59,5 +81,6 @@ t = open(p).read()
 t = splice(t, "STATUS-TABLE", status_table())
 t = splice(t, "DEFECTS-TABLE", defects_table())
 t = splice(t, "SEED-TABLE", seed_table())
+t = splice(t, "REFAC-TABLE", refac_table())
 open(p, "w").write(t)
 print("DESIGN.md: status table and seed table regenerated")
